@@ -15,7 +15,8 @@ Oracles (all from the property text / numpy.fft as the mathematical definition):
   * input_shape / output_shape == batch (+) dims  resp.  batch (+) dims[:-1] + [dims[-1]//2 + 1]
   * backward(forward(x)) == N * x
   * an input of any other shape raises ValueError and the plan still works afterwards
-  * the test double's extent flag stays 0 and its fftw_malloc bookkeeping is balanced after destruction
+  * the test double's extent flag stays 0; its fftw_malloc bookkeeping and its count of live FFTW plans
+    (fftw_shim_live_plans) are back to their start after destruction
 """
 import ctypes
 import itertools
@@ -44,6 +45,7 @@ def shim():
         lib.fftw_shim_error.restype = ctypes.c_int
         lib.fftw_shim_live_allocs.restype = ctypes.c_int
         lib.fftw_shim_nexec.restype = ctypes.c_long
+        lib.fftw_shim_live_plans.restype = ctypes.c_long
         lib.fftw_shim_clear_error.restype = None
         _lib["l"] = lib
     return _lib["l"]
@@ -149,9 +151,11 @@ def check_plan(c, ctx, tag):
     classify(ctx, c)
     lib.fftw_shim_clear_error()
     live0 = lib.fftw_shim_live_allocs()
+    plans0 = lib.fftw_shim_live_plans()
     w = FFTWrapper(dims, ntransform=nt, fwd=fwd, r2c=r2c, inplace=inplace, batch_first=bf)
     live1 = lib.fftw_shim_live_allocs()
     ctx.check(live1 - live0 == (1 if inplace else 2), ("alloc_count", cls), got=live1 - live0)
+    ctx.check(lib.fftw_shim_live_plans() - plans0 == 1, ("plan_count", cls), got=lib.fftw_shim_live_plans() - plans0)
     ein, eout = expected_shapes(dims, nt, fwd, r2c, bf)
     ctx.check(tuple(w.input_shape) == ein, ("input_shape", cls), got=list(w.input_shape), want=list(ein))
     ctx.check(tuple(w.output_shape) == eout, ("output_shape", cls), got=list(w.output_shape), want=list(eout))
@@ -193,9 +197,13 @@ def check_plan(c, ctx, tag):
         ctx.equal_bits(again, got, ("plan_state_after_other_calls", cls))
     ctx.check(lib.fftw_shim_live_allocs() == live1, ("alloc_during_calls", cls),
               got=lib.fftw_shim_live_allocs() - live1)
+    ctx.check(lib.fftw_shim_live_plans() - plans0 == 1, ("plan_count_during_calls", cls),
+              got=lib.fftw_shim_live_plans() - plans0)
     del w
     ctx.check(lib.fftw_shim_live_allocs() == live0, ("alloc_balance", cls),
               leaked=lib.fftw_shim_live_allocs() - live0)
+    ctx.check(lib.fftw_shim_live_plans() == plans0, ("plan_balance", cls),
+              leaked=lib.fftw_shim_live_plans() - plans0)
     return got
 
 
@@ -215,6 +223,7 @@ def check_roundtrip(c, ctx, count=True):
         ctx.nontrivial([dims, nt, r2c, bf, ip_f, ip_b])
     lib.fftw_shim_clear_error()
     live0 = lib.fftw_shim_live_allocs()
+    plans0 = lib.fftw_shim_live_plans()
     fw = FFTWrapper(dims, ntransform=nt, fwd=True, r2c=r2c, inplace=ip_f, batch_first=bf)
     bw = FFTWrapper(dims, ntransform=nt, fwd=False, r2c=r2c, inplace=ip_b, batch_first=bf)
     # shapes are judged before any C call: a wrong advertised shape would make the C side run over the
@@ -236,6 +245,8 @@ def check_roundtrip(c, ctx, count=True):
     del fw, bw
     ctx.check(lib.fftw_shim_live_allocs() == live0, ("alloc_balance", cls),
               leaked=lib.fftw_shim_live_allocs() - live0)
+    ctx.check(lib.fftw_shim_live_plans() == plans0, ("plan_balance", cls),
+              leaked=lib.fftw_shim_live_plans() - plans0)
 
 
 # ------------------------------------------------------------------------------------------------
@@ -295,7 +306,8 @@ RULE_COMMON = ("plans: rank 1-4, ntransform 1-6, all 16 (fwd,r2c,inplace,batch_f
                "numpy rfftn of a real array); oracle numpy.fft.fftn/rfftn/ifftn*N/irfftn*N over the non-batch "
                "axes at 1e-13*N*max|x|, advertised shapes, ValueError for one of 9 constructed wrong shapes "
                "(then the plan must reproduce its first result bit for bit), 1-3 calls with different inputs, "
-               "test-double extent flag == 0, fftw_malloc live count back to its start after destruction; "
+               "test-double extent flag == 0, fftw_malloc live count and live FFTW plan count back to their start after "
+               "destruction (exactly one plan alive while the wrapper lives); "
                "non-trivial = not (rank 1, ntransform 1, c2c, out of place); distinct by (dims, ntransform, flags)")
 
 
